@@ -57,6 +57,8 @@ func main() {
 		runC20(r, rng, thorough)
 	case "C07":
 		runC07(r, rng, thorough)
+	case "C01":
+		runC01(r, rng, thorough)
 	case "C09":
 		runC09(r, rng, thorough)
 	case "C14":
